@@ -84,7 +84,7 @@ macro "gr_leaf" : tactic => `(tactic| first
   | exact Grow.moveEnd _ _ | exact Grow.moveBufferStart _ _ | exact Grow.moveBufferEnd _ _
   | exact Grow.moveToPrevWord _ _ _ _ | exact Grow.moveToNextWord _ _ _ _ _
   | exact Grow.moveToLineUp _ _ _ _ | exact Grow.moveToLineDown _ _ _ _ | exact Grow.moveTo _ _ _ _
-  | exact Grow.setPosChecked _ _ _
+  | exact Grow.setPosChecked _ _ _ | exact Grow.moveToFirstPrint _ _
   | assumption)
 
 macro "em_grow_step" : tactic => `(tactic| first
